@@ -605,6 +605,19 @@ def chaining(ctx, report, rule, facts, config, pairs):
                 pr.append("%s is not given the builder and the wrapper's own arguments in order" % t)
             if e.ret is None or ("param", 1) not in Q.origins(ev, e.ret):
                 pr.append("the builder is not what is returned")
+        if pr:
+            # not a call of the twin: then the same thing done in place - with the twin looked into, and nothing else, the
+            # wrapper does on every way what the twin does, and hands the builder back
+            try:
+                from .semcanon import canonical
+                ev1, ends1 = Q.sem(ctx, facts, wb, only=[tb.key])
+                ev2, ends2 = Q.sem(ctx, facts, tb, only=[])
+                c1, c2 = canonical(ev1, ends1), canonical(ev2, ends2)
+                same = set(x[:3] for x in c1) == set(x[:3] for x in c2) and all(x[3] == "('param', 1)" for x in c1 if x[0] == "return") and any(x[0] == "return" for x in c1)
+                if same:
+                    pr = []
+            except Exception:
+                pass
         report.ob(rule, "chain/%s" % w, not pr, "%s(self, ..) = %s(&mut self, ..); self" % (w, t) if not pr else "%s: %s" % (w, "; ".join(sorted(set(pr)))), site=wb.loc(), config=config)
     return n
 
